@@ -38,7 +38,7 @@ func MapKeys[K comparable, V any](site int, m map[K]V) []K {
 	sort.Slice(keys, func(i, j int) bool {
 		return fmt.Sprintf("%v", keys[i]) < fmt.Sprintf("%v", keys[j])
 	})
-	MapRanges++
+	countRange()
 	if OrderFn == nil || len(keys) < 2 {
 		return keys
 	}
@@ -57,3 +57,11 @@ func MapKeys[K comparable, V any](site int, m map[K]V) []K {
 	}
 	return out
 }
+
+// countRange bumps the reach probe. It is a simulator-owned counter touched
+// from whichever task happens to run: kept out of the race detector's sight,
+// like the rest of the scheduler state (an atomic would add happens-before
+// edges between tasks and could hide a genuine library race).
+//
+//go:norace
+func countRange() { MapRanges++ }
